@@ -211,11 +211,17 @@ class SvsInst:
     def new_data(self):
         self.self_seq += 1
         self.local_sv[self.self_node_id] = self.self_seq
-        # Emit a sync Interest immediately
+        # Emit a sync Interest immediately.
+        # (Not via the timer task: a sync Interest handled before that task wakes up would re-arm the timer
+        # and delay the announcement by a whole suppression period.)
         self.state = SvsState.SyncSteady
-        self.next_sync_timing = 0
         if self.running:
+            self.express_sync_interest()
+            # Reset sync timer
+            self.next_sync_timing = time.time() + self.sample_sync_timer()
             self.timer_rst_event.set()
+        else:
+            self.next_sync_timing = 0
         return self.self_seq
 
     def start(self, ndn_app: app.NDNApp):
